@@ -165,6 +165,14 @@ Definition leave (p : prc) (na : astate) (sa : bool) (rs : list req) : prc :=
 
 Definition set_fw (r : req) (f : fstate) : req := {| rc := rc r; fw := f; stp := stp r |}.
 
+(* the frame decodes and the handler answers with a service channel (a request
+   for a channel the service does not have is a handler error) *)
+Definition handler_ok (s : st) (m : cmsg) : bool :=
+  match m with
+  | MReq c => c <? length (svc s)
+  | MBad => false
+  end.
+
 Definition step (fx : fixes) (s : st) (a : action) : option st :=
   if crashed s then None else
   let n := nt s in let w := wk s in let p := pc s in
@@ -349,7 +357,8 @@ Definition step (fx : fixes) (s : st) (a : action) : option st :=
       end
   | AdBad =>
       match ad p with
-      | ABusy MBad =>
+      | ABusy m =>
+          if handler_ok s m then None else
           if f18 fx then
             Some (set_pc s (leave p AExit true (reqs p)))
           else if out_closed p then Some (crash s)                  (* close of closed channel *)
@@ -362,7 +371,7 @@ Definition step (fx : fixes) (s : st) (a : action) : option st :=
   | AdHandle =>
       match ad p with
       | ABusy (MReq c) =>
-          if c <? length (svc s) then
+          if handler_ok s (MReq c) then
             Some (set_pc s {| ad := ALoop; out := out p; out_closed := out_closed p; once := once p;
                               active := active p; stopall := stopall p;
                               reqs := reqs p ++ [{| rc := c; fw := FRecv; stp := false |}] |})
@@ -626,6 +635,25 @@ Definition tau_reduced (s : st) : list action :=
 
 Definition succs (fx : fixes) (s : st) : list st := steps fx s (tau_reduced s).
 
+(* Internal actions that commute with every other action, that nothing can
+   disable and that disable nothing: a stopper closing its stop channel, and a
+   forwarder leaving when that does not close outChan (pinned: the once is used
+   up; f18: it is not the last one). Any run can be reordered so that they happen
+   as soon as they are enabled, and a quiescent end state has taken them all; the
+   closure therefore replaces a state by its successor under such an action. *)
+Definition eager_action (fx : fixes) (s : st) : option action :=
+  let p := pc s in
+  match (if stopall p then first_idx (fun r => negb (stp r)) (reqs p) 0 else None) with
+  | Some k => Some (StStop k)
+  | None =>
+      if (if f18 fx then 1 <? active p else once p) then
+        match first_idx (exit_ready s) (reqs p) 0 with
+        | Some k => Some (FwRecv k)
+        | None => None
+        end
+      else None
+  end.
+
 (* closure under internal actions; None = out of fuel *)
 Fixpoint closure (fx : fixes) (fuel : nat) (todo seen : list st) : option (list st) :=
   match todo with
@@ -634,8 +662,12 @@ Fixpoint closure (fx : fixes) (fuel : nat) (todo seen : list st) : option (list 
       match fuel with
       | 0 => None
       | S f =>
-          if existsb (st_eqb s) seen then closure fx f r seen
-          else closure fx f (succs fx s ++ r) (s :: seen)
+          match (match eager_action fx s with Some a => step fx s a | None => None end) with
+          | Some s' => closure fx f (s' :: r) seen
+          | None =>
+              if existsb (st_eqb s) seen then closure fx f r seen
+              else closure fx f (succs fx s ++ r) (s :: seen)
+          end
       end
   end.
 
